@@ -260,10 +260,11 @@ func runFamily(c *vh.Ctx, fam *family) {
 }
 
 // populateAll fills every field of m deterministically (depth-limited).
-//   all-zero-present: every singular field with explicit presence is present with the zero value / empty
-//                     bytes / empty submessage (first member of each oneof)
-//   all-populated:    every field non-zero; lists and maps with two elements; first member of each oneof
-//   all-populated-other-oneof-members: same, last member of each oneof
+//
+//	all-zero-present: every singular field with explicit presence is present with the zero value / empty
+//	                  bytes / empty submessage (first member of each oneof)
+//	all-populated:    every field non-zero; lists and maps with two elements; first member of each oneof
+//	all-populated-other-oneof-members: same, last member of each oneof
 func populateAll(c *vh.Ctx, m protoreflect.Message, which string, depth int) {
 	fds := m.Descriptor().Fields()
 	zero := which == "all-zero-present"
